@@ -82,11 +82,11 @@ MStep(mm, o, S0, S1) ==
          [] o.op = "drop" ->
                IF ~member THEN mm
                ELSE MZombie(IF S0.bars[b].fin = "no" THEN MDraw(fresh, <<>>) ELSE mm, b)
-         [] o.op \in {"set_style", "restyle", "clone", "drop_one", "mp_set_alignment", "reset_eta", "reset_elapsed", "is_hidden", "downgrade", "upgrade"} -> mm
+         [] o.op \in {"set_style", "restyle", "clone", "drop_one", "mp_set_alignment", "mp_set_move_cursor", "reset_eta", "reset_elapsed", "is_hidden", "downgrade", "upgrade"} -> mm
          [] OTHER -> IF member THEN MDraw(fresh, <<>>) ELSE mm
 
 Painted(o, S0) == o.op \notin {"add", "insert", "insert_from_back", "insert_before", "insert_after", "mp_remove", "set_style", "restyle", "clone", "drop_one",
-                               "mp_set_alignment", "reset_eta", "reset_elapsed", "is_hidden", "downgrade", "upgrade"}
+                               "mp_set_alignment", "mp_set_move_cursor", "reset_eta", "reset_elapsed", "is_hidden", "downgrade", "upgrade"}
                   /\ (o.op = "drop" => S0.bars[o.b].fin = "no")
                   /\ (o.b # 0 => (o.b \in S0.ids => S0.bars[o.b].vis))
 
